@@ -65,6 +65,12 @@ class Monitor:
         idx = len(r.events)
         r.events.append((code.co_name, line))
         if r.line_k is not None and idx == r.line_k and not r.fired:
+            if (code.co_name, line) in r.forbidden:
+                # restore code (recognised syntactically or by the IR): never raise here, whatever the plan says -
+                # the k-th event can be another line than in the fault-free run (history-dependent control flow)
+                r.line_k = None
+                r.suppressed = (code.co_name, line)
+                return
             r.fired = True
             visit = sum(1 for e in r.events if e == (code.co_name, line))
             r.origins.append({'func': code.co_name, 'line': line, 'visit': visit, 'exc': r.exc_name, 'at': idx,
@@ -93,8 +99,10 @@ MON = Monitor()
 
 
 class Run:
-    def __init__(self, line_k=None, call_k=None, exc_name='InjectedFault'):
+    def __init__(self, line_k=None, call_k=None, exc_name='InjectedFault', forbidden=frozenset()):
         self.line_k, self.call_k, self.exc_name = line_k, call_k, exc_name
+        self.forbidden = forbidden        # (function, line) pairs of restore code: no line-level injection there
+        self.suppressed = None
         self.events, self.origins, self.seen_exc = [], [], {}
         self.fired = False
         self.calls = []
@@ -291,12 +299,13 @@ def apply_env(state):
             os.environ[k] = v
 
 
-def run_case(func, variant, init, inject, tmp):
+def run_case(func, variant, init, inject, tmp, forbidden=frozenset()):
     """run the real function once.  inject: None | {'mode':'line','k':..,'exc':..} | {'mode':'call','k':..,'exc':..}
+    forbidden: (function, line) pairs of restore code, at which a line-level injection is never carried out.
     Returns (result dict, Run)."""
     run = Run(line_k=inject['k'] if inject and inject['mode'] == 'line' else None,
               call_k=inject['k'] if inject and inject['mode'] == 'call' else None,
-              exc_name=(inject or {}).get('exc', 'InjectedFault'))
+              exc_name=(inject or {}).get('exc', 'InjectedFault'), forbidden=forbidden)
     saved = dict(os.environ)
     try:
         apply_env(init)
@@ -325,4 +334,4 @@ def run_case(func, variant, init, inject, tmp):
     run.before, run.after = before, after
     diff = {k: [before.get(k), after.get(k)] for k in sorted(set(before) | set(after)) if before.get(k) != after.get(k)}
     return {'outcome': outcome, 'diff': diff, 'fired': run.fired, 'n_events': len(run.events),
-            'n_calls': len(run.calls)}, run
+            'n_calls': len(run.calls), 'suppressed': run.suppressed}, run
